@@ -65,6 +65,10 @@ func ruleOverflowGuards(c *Ctx) {
 		return isC && cv == k && strip(bo.Y) == strip(other)
 	}
 	nadd, nneg := 0, 0
+	maxInt, minInt := int64(math.MaxInt64), int64(math.MinInt64)
+	if c.P.GOARCH == "386" || c.P.GOARCH == "arm" {
+		maxInt, minInt = math.MaxInt32, math.MinInt32
+	}
 	for _, f := range fns {
 		c.analysed(f)
 		allInstrs(f, func(ins ssa.Instruction) {
@@ -100,10 +104,10 @@ func ruleOverflowGuards(c *Ctx) {
 								continue
 							}
 							for _, pr := range [][2]ssa.Value{{x.X, x.Y}, {x.Y, x.X}} {
-								if isMaxMinus(at.X, pr[1], math.MaxInt) && strip(at.Y) == strip(pr[0]) {
+								if isMaxMinus(at.X, pr[1], maxInt) && strip(at.Y) == strip(pr[0]) {
 									hasMax = true // MaxInt - y < x  => reject
 								}
-								if isMaxMinus(at.Y, pr[1], math.MinInt) && strip(at.X) == strip(pr[0]) {
+								if isMaxMinus(at.Y, pr[1], minInt) && strip(at.X) == strip(pr[0]) {
 									hasMin = true // x < MinInt - y  => reject
 								}
 							}
@@ -121,7 +125,7 @@ func ruleOverflowGuards(c *Ctx) {
 				for _, at := range factsAt(x.Block()) {
 					if at.Kind == "eq" && !at.Pos {
 						for _, pr := range [][2]ssa.Value{{at.X, at.Y}, {at.Y, at.X}} {
-							if cv, isC := constInt(pr[1]); isC && cv == math.MinInt && strip(pr[0]) == strip(x.X) {
+							if cv, isC := constInt(pr[1]); isC && cv == minInt && strip(pr[0]) == strip(x.X) {
 								okG = true
 							}
 						}
